@@ -335,7 +335,7 @@ func prepareQuery(pc []Term, goal Term) []string {
 			cands = append(cands, &sx{atom: k})
 		}
 	}
-	cands = append(cands, &sx{atom: "0"}, &sx{atom: "1"})
+	cands = append(cands, &sx{atom: "0"}, &sx{atom: "1"}, &sx{atom: "2"}, &sx{atom: "3"})
 	// index terms of array reads that the goal depends on (directly or through the
 	// definitions of the symbols it mentions) are instantiation candidates as well
 	if len(cands) <= 8 {
